@@ -158,3 +158,8 @@ def run(prog: Program, ctx: Ctx) -> None:  # noqa: PLR0912,PLR0915
     from sa.rules.C02 import alignment_table
 
     alignment_table(prog, ctx, "R7", 2, 2, 500)
+
+    # ------------------------------------------------------------------ R8 static import aliases = what CPython binds (and the inspector sees)
+    from sa.importrules import importfrom_table
+
+    importfrom_table(prog, ctx, "R8")
